@@ -65,7 +65,8 @@ def rand_case(rng):
             k = rng.randrange(n)
             if k not in gated:
                 gated.append(k)
-                ops += [f"r{k}+", f"t{k}"]
+                # one message parked in its handler, possibly a backlog queued behind it
+                ops += [f"r{k}+", f"t{k}"] + [f"t{k}"] * rng.choice([0, 0, 1, 2, 3])
         elif r < 0.90:
             ops.append("burst")
     ops += ["stop", "after"] + [f"r{k}-" for k in gated]
@@ -82,6 +83,8 @@ def systematic():
         "sys t=-,-,-,0,1,2 g=1 | stop after",
         "sys t=-,0,0,1 g=1 | r3+ t3 stop after r3-",
         "sys t=-,0 g=1 | r0+ t0 stop after r0-",
+        "sys t=-,0 g=0 | r1+ t1 t1 t1 stop after r1-",
+        "sys t=- g=1 | r0+ t0 t0 t0 t0 stop after r0-",
         "sys t=-,-,1 g=2 | k1 d0 t0 t2 stop after",
         "sys t=-,0,1 g=2 | d1 m1 stop after",
         "sys t=-,0,1,2 g=3 | burst stop after",
@@ -198,6 +201,11 @@ def classify(case, impl, why):
     toks = why.split()[1:]
     restarted = {int(o[1:]) for o in case.partition("|")[2].split() if re.fullmatch(r"R\d+", o)}
     for tok in toks:
+        m = re.fullmatch(r"new:A(\d+)x\d+", tok)
+        if m and int(m.group(1)) in restarted:
+            # the orphan survives Stop and handles what it is sent afterwards
+            found.append("C17-F4")
+            continue
         m = re.fullmatch(r"post:A(\d+)=0", tok)
         if m and int(m.group(1)) in restarted:
             found.append("C17-F4")
@@ -210,9 +218,11 @@ def classify(case, impl, why):
         if m and all(c == "x" or i in restarted for i, c in enumerate(m.group(1))):
             found.append("C17-F4")
             continue
-        if re.fullmatch(r"(in|new):A\d+", tok):
-            # still inside Receive when Stop returned, or entered Receive after it (the worker had
-            # already picked the behaviour before reset() cleared it): both are C06-F1 (clauses 4 / 3)
+        if re.fullmatch(r"in:A\d+", tok) or (re.fullmatch(r"new:A\d+x1", tok) and "burst" in case):
+            # still inside Receive when Stop returned; or ONE Receive entered after it under unsynchronised
+            # traffic (the worker had already picked the behaviour before reset() cleared it): both are
+            # C06-F1 (clauses 4 / 3).  More than one late Receive per actor, or any late Receive in a
+            # script without `burst`, is NOT covered.
             found.append("C17-F1")
         elif re.fullmatch(r"leak:G\d+", tok):
             found.append("C17-F3")
